@@ -67,7 +67,7 @@ def cases(tier):
                     for setup in SETUPS:
                         sp = [t] * d
                         if setup == "periodic":
-                            pax = next((ax for ax in range(d) if U.periodic_ok(U.AXES[cls][ax])), None)
+                            pax = U.periodic_axis(cls, shape, org)
                             if pax is not None:
                                 sp[pax] = "U"
                         out.append({"grid": U.spec(cls, shape, tuple(sp), org), "setup": setup, "part": "units", "tier": tier})
@@ -104,7 +104,7 @@ def run_config(spec, setup, ts, scheme, L, T, K):
     beta = pf.CellVariable(mesh, (0.5 + U.generic_array(dims, tag=505) / 16.0) / T)
     gamma = pf.CellVariable(mesh, U.generic_array(dims, tag=507, signed=True) * (K / T))
     bc = pf.BoundaryConditions(mesh)
-    pax = next((ax for ax in range(d) if U.periodic_ok(kinds[ax])), None) if setup == "periodic" else None
+    pax = U.periodic_axis(cls, dims, spec["org"]) if setup == "periodic" else None
     t = 0
     for ax in range(d):
         for hi, side in enumerate(U.SIDES[ax]):
